@@ -65,7 +65,9 @@ pub fn default_runs_upto(lg_k: u8, max_len: usize) -> Vec<(&'static str, Vec<u32
     // hashed items 0..n: the pairs the public update derives (reference MurmurHash), duplicates
     // included; reaches the states ordinary streams reach (single surprising zeros, shrinking tables)
     let mut e = vec![];
-    let n = (96u64 << lg_k).min(1 << 15).min(max_len as u64);
+    // (above lg_k 21 the crafted orders are skipped — sequential keys make the pair table crawl —
+    // and the hashed run carries the whole spot check)
+    let n = if lg_k > 21 { (max_len as u64).min(1 << 23) } else { (96u64 << lg_k).min(1 << 15).min(max_len as u64) };
     for i in 0..n {
         let (h1, h2) = crate::refhash::murmur3_x64_128(&i.to_le_bytes(), 9001);
         e.push(rc((h1 & (k as u64 - 1)) as u32, h2.leading_zeros().min(63)));
@@ -155,7 +157,7 @@ fn run_deep(ctx: &Ctx, lg_k: u8, bound: usize, stride1: usize, stride2: usize, f
         // (sequential keys cluster: 7 s at lg_k 9, 50 s at 10, 7 min at 11, about an hour at 12),
         // so it is a whole-life run only where it finishes in seconds; the other four orders
         // cover the larger lg_k.
-        if run.is_empty() || (lg_k > 9 && rname.starts_with("row-major")) {
+        if run.is_empty() || (lg_k > 9 && rname.starts_with("row-major")) || (lg_k > 21 && !rname.starts_with("hashed")) {
             return;
         }
         let init = Duo::new(lg_k);
